@@ -84,6 +84,42 @@ CHECKS = {
         note=TB + "; strtol/strtok_r/isspace semantics (glibc, C locale) are modelled; parson returns strings unchanged",
         technique="Lean 4 theorems over a transcription of version.h/model.c + differential correspondence (C harness, ovniemu)",
         design="DESIGN.md §5 C14"),
+    "C15": dict(
+        text=("Theorems (Props/C15.lean, 23) over a transcription of trace_load's relpath sort + system_init (create_loom/proc/"
+              "thread, load_cpus with its index/phyid conflict detection, load_appid, load_rank, set_sort_criteria, sort_lpt, "
+              "loom_sort, proc_sort, global lists and indices, row names): permuting the streams gives the identical result "
+              "(build_enum_order_invariant); the same union of metadata, however distributed over the threads of a process / "
+              "loom, gives the same hierarchy, order and rows or both fail (build_perm_invariant_fixed, full strength for the "
+              "code after the repair f0b14dc; build_perm_invariant_partial/_safe for the code before it, whose crash is kept "
+              "as `decide` witnesses crash_witness_*); looms by name or minimum rank, processes by rank or pid, threads by "
+              "tid, CPUs by phyid with the virtual CPU last (order_spec, threadRows_spec, cpuRows_spec, hier_content); every "
+              "listed contradiction is refused with an error, never accepted, never a crash (conflicts_refused_fixed, "
+              "conflicts_never_accepted, create_error_has_conflict). Tie: real ovniemu on metamorphic variants of random "
+              "worlds (attributes moved between threads, CPU lists split/shuffled/duplicated, creation order shuffled, "
+              "directories renamed), all single contradictions and bounded-exhaustive CPU-list pairs vs the Lean model "
+              "(drv_system) and vs rows computed in Python from the world alone; never a signal."),
+        note=TB + "; JSON numbers are int-range integers; uthash insertion order and stable HASH_SORT/DL_SORT are modelled; "
+             "stream loading, metadata version check and model probing are outside this model",
+        technique="Lean 4 refinement of system_init to a function of the metadata union + metamorphic differential runs of ovniemu",
+        design="DESIGN.md §5 C15"),
+    "C16": dict(
+        text=("Theorems (Props/C16.lean, 18) over a transcription of ovnisort.c (ring arithmetic, find_destination, OU[/OU] region "
+              "automaton, execute_sort_plan with an abstract qsort, ring_check, -c mode): under the explicit decidable "
+              "preconditions (only marked regions unsorted, destination within the look-back window, clocks < 2^63) the run "
+              "succeeds, keeps the total size, outputs a permutation of the input events with bytes unchanged and "
+              "non-decreasing clocks (winsort_ok), and success holds exactly when the window condition holds (status_ok_iff); "
+              "the output is a permutation in every outcome (permutation_always); everything before the first executed plan "
+              "is untouched (prefix_untouched, prefix_bytes_untouched); with a stable qsort equal clocks keep their order and "
+              "the result equals a stable sort of the whole stream (equal_clock_order_preserved, winsort_eq_stable_sort); a "
+              "sorted stream is returned unchanged (idempotent); -c passes exactly on sorted non-empty streams and the "
+              "emulator's clock test accepts the result (streamCheck_iff, check_passes, emulator_accepts_sorted); no "
+              "destination means an error, never success (fails_loudly). Tie: the real ovnisort [-n N], ovnisort -c, a "
+              "second ovnisort run and ovniemu -l on Python-written streams, byte-compared with the Lean model (drv_ovnisort) "
+              "and checked by an independent stable-sort oracle; thorough adds all streams of <= 4 events."),
+        note=TB + "; qsort is a parameter (sorted permutation; stability a named hypothesis, satisfied by insertion sort and by "
+             "glibc's merge sort); -n 0 out of scope; the private mapping observes the tool's own pwrite",
+        technique="Lean 4 refinement of the window sort to a stable sort + byte-exact differential runs of ovnisort",
+        design="DESIGN.md §5 C16"),
     "C17": dict(
         text=("Theorems (Props/C17.lean, 17): the runtime refuses ovni_mark_type / ovni_mark_label exactly for a type outside "
               "[0,100), empty title/label, redefinition, value <= 0, undefined type or relabelled value "
